@@ -41,9 +41,12 @@ PROPS = {
     'C14': dict(modules=['NutsProofs.Props.C14'], suites=[],
                 conc=[dict(name='kv', quick='-profile kv -workers 8 -txs 25 -dbs 2 -mode 0', thorough='-profile kv -workers 16 -txs 60 -dbs 3 -mode 0', rounds=dict(quick=1, thorough=6)),
                       dict(name='kv-keyonly', quick='-profile kv -workers 8 -txs 25 -dbs 2 -mode 1', thorough='-profile kv -workers 16 -txs 60 -dbs 3 -mode 1', rounds=dict(quick=1, thorough=6)),
-                      dict(name='structs', quick='-profile structs -workers 8 -txs 25 -dbs 2 -mode 0', thorough='-profile structs -workers 16 -txs 60 -dbs 3 -mode 0', rounds=dict(quick=1, thorough=6),
-                           # SMove* mutate the committed set index while holding only the read lock (finding D-SMOVE, predicted by the effect facts)
-                           known_races=[('D-SMOVE', r'SMoveBy(One|Two)Bucket')]),
+                      # judged line by line in lock order: without SMove*, whose in-place mutation of the committed set index under
+                      # the read lock (finding D-SMOVE, predicted by the effect facts) makes concurrent readers' results schedule-dependent
+                      dict(name='structs', quick='-profile structs -nosmove -workers 8 -txs 25 -dbs 2 -mode 0', thorough='-profile structs -nosmove -workers 16 -txs 60 -dbs 3 -mode 0', rounds=dict(quick=1, thorough=6)),
+                      # with SMove*: race detector only; its reports on SMove* are the known finding
+                      dict(name='structs-smove-raceonly', quick='-profile structs -workers 8 -txs 25 -dbs 2 -mode 0', thorough='-profile structs -workers 16 -txs 60 -dbs 3 -mode 0', raceonly=True,
+                           rounds=dict(quick=1, thorough=3), known_races=[('D-SMOVE', r'SMoveBy(One|Two)Bucket')]),
                       dict(name='sparse-raceonly', quick='-profile kv -workers 6 -txs 20 -dbs 2 -mode 2', thorough='-profile kv -workers 12 -txs 50 -dbs 3 -mode 2', raceonly=True,
                            rounds=dict(quick=1, thorough=3))],
                 assumptions=['the Go memory model (lock => happens-before), the runtime scheduler and the soundness of the effect extraction are outside the Lean model: the race detector and the lock-order replay are a search for failures there',
